@@ -3,6 +3,8 @@
 modes:  unparse  - every module re-emitted by ast.unparse (formatting, quotes, comments, all line numbers change)
         rename   - unparse + every function-local variable renamed (x -> x_rn), scope-aware and conservative
         pad      - original text with 3 comment lines inserted before every top-level def/class (line shift only)
+        unelse   - unparse + "unnecessary else after return" removed everywhere: `if c: ...; return X  else: REST` -> `if c: ...; return X` + REST
+        addelse  - unparse + the reverse: statements following an if whose body always leaves the block are moved into its else
 Used to test that the checks stay silent on edits that leave behaviour unchanged."""
 import ast, os, shutil, sys, builtins
 
@@ -80,6 +82,57 @@ def rename_locals(tree):
     return tree
 
 
+def _leaves(stmts):
+    if not stmts:
+        return False
+    last = stmts[-1]
+    if isinstance(last, (ast.Return, ast.Raise, ast.Continue, ast.Break)):
+        return True
+    if isinstance(last, ast.If):
+        return _leaves(last.body) and _leaves(last.orelse)
+    return False
+
+
+def _map_blocks(tree, f):
+    for n in ast.walk(tree):
+        for fld in ("body", "orelse", "finalbody"):
+            blk = getattr(n, fld, None)
+            if isinstance(blk, list) and blk and isinstance(blk[0], ast.stmt):
+                setattr(n, fld, f(blk))
+        if isinstance(n, ast.Try):
+            for h in n.handlers:
+                h.body = f(h.body)
+    return tree
+
+
+def unelse(tree):
+    def f(blk):
+        out = []
+        for s_ in blk:
+            if isinstance(s_, ast.If) and s_.orelse and _leaves(s_.body):
+                rest = s_.orelse
+                s_.orelse = []
+                out.append(s_)
+                out.extend(f(rest))
+            else:
+                out.append(s_)
+        return out
+    for _ in range(3):
+        tree = _map_blocks(tree, f)
+    return ast.fix_missing_locations(tree)
+
+
+def addelse(tree):
+    def f(blk):
+        for i, s_ in enumerate(blk):
+            if isinstance(s_, ast.If) and not s_.orelse and _leaves(s_.body) and i + 1 < len(blk):
+                s_.orelse = f(blk[i + 1:])
+                return blk[: i + 1]
+        return blk
+    tree = _map_blocks(tree, f)
+    return ast.fix_missing_locations(tree)
+
+
 for root, _, files in os.walk(os.path.join(dst, "src")):
     for f in files:
         if not f.endswith(".py"):
@@ -97,6 +150,33 @@ for root, _, files in os.walk(os.path.join(dst, "src")):
             tree = ast.parse(text)
             if mode == "rename":
                 tree = rename_locals(tree)
+            if mode == "nolog":
+                class NL(ast.NodeTransformer):
+                    def visit_Expr(self, n):
+                        if isinstance(n.value, ast.Call) and isinstance(n.value.func, ast.Attribute) and isinstance(n.value.func.value, ast.Name) and n.value.func.value.id == "logger":
+                            return ast.Pass()
+                        return n
+                tree = ast.fix_missing_locations(NL().visit(tree))
+            if mode == "addlog":
+                has_logger = any(isinstance(n, ast.Assign) and any(isinstance(t, ast.Name) and t.id == "logger" for t in n.targets) for n in tree.body)
+                if has_logger:
+                    for fn in [n for n in ast.walk(tree) if isinstance(n, (ast.FunctionDef, ast.AsyncFunctionDef))]:
+                        i = 1 if fn.body and isinstance(fn.body[0], ast.Expr) and isinstance(fn.body[0].value, ast.Constant) and isinstance(fn.body[0].value.value, str) else 0
+                        fn.body.insert(i, ast.parse(f'logger.debug("enter %s", {fn.name!r})').body[0])
+                    tree = ast.fix_missing_locations(tree)
+            if mode == "notcmp":
+                class NC(ast.NodeTransformer):
+                    def visit_Compare(self, n):
+                        self.generic_visit(n)
+                        inv = {ast.NotIn: ast.In, ast.IsNot: ast.Is, ast.NotEq: ast.Eq}
+                        if len(n.ops) == 1 and type(n.ops[0]) in inv:
+                            return ast.UnaryOp(op=ast.Not(), operand=ast.Compare(left=n.left, ops=[inv[type(n.ops[0])]()], comparators=n.comparators))
+                        return n
+                tree = ast.fix_missing_locations(NC().visit(tree))
+            if mode == "unelse":
+                tree = unelse(tree)
+            if mode == "addelse":
+                tree = addelse(tree)
             new = ast.unparse(tree) + "\n"
         compile(new, p, "exec")
         open(p, "w", encoding="utf-8").write(new)
